@@ -56,6 +56,7 @@ def structures():
     _CACHE["contiguous"] = [nts[0], nts[1], nts[2], nts[3]]                       # G C G G, all connected
     _CACHE["gap"] = [nts[0], nts[1], nts[3], nts[4]]                               # numbering gap 2 -> 4 (one missing residue)
     _CACHE["two-chains"] = [nts[0], nts[1], rename(nts[4], "B", 7), rename(nts[5], "B", 8)]   # G C | A U
+    _CACHE["chain-aba"] = [nts[0], rename(nts[4], "B", 7), nts[2], nts[3]]          # chain A, chain B, chain A again (a chain id in two blocks)
     return _CACHE
 
 
@@ -123,9 +124,11 @@ def oracle(sname, find_gaps, entries, m):
         key = (min(pos_of[a], pos_of[bb]), max(pos_of[a], pos_of[bb]))
         if is_c:
             canon.add(key)
+        # the class is oriented lower residue first (the library's convention; the statement leaves the orientation open), the positions are
+        # those of the two brackets, left to right
         lo, hi = (a, bb) if residues[a] < residues[bb] else (bb, a)
         lw_o = lw if (lo, hi) == (a, bb) else lw.reverse
-        distinct.add((pos_of[lo], pos_of[hi], lw_o.value))
+        distinct.add((min(pos_of[lo], pos_of[hi]), max(pos_of[lo], pos_of[hi]), lw_o.value))
     if not pairs <= canon:
         problems.append((f"BPSEQ pairs {sorted(pairs)} are not all canonical input pairs {sorted(canon)}", "invented-pair"))
     for p in canon:
@@ -282,12 +285,14 @@ def run(rep, tier):
         entries, nq, dt = enumerate_inputs(k, nl, ns, restrict_tail=(k == 3))
         rep.add(transitions=nq, solver_s=dt)
         inputs = [(sn, fg, e) for sn in ("contiguous", "gap", "two-chains") for fg in (0, 1) for e in entries]
+        if k <= 2:
+            inputs += [("chain-aba", 0, e) for e in entries]
         if k == 3:
             inputs = [(sn, fg, e) for sn, fg in (("contiguous", 0), ("gap", 1), ("two-chains", 1)) for e in entries]
         total += len(inputs)
         pt = allsat.run_family(f"k{k}_lw{nl}_saenger{ns}", "harness.c06", "body", inputs,
                                [f"{k} pair entries over 4 residues + 1 absent", f"{nl} LW classes, {ns} Saenger options",
-                                "3 structures (contiguous / numbering gap / two chains) x gap detection on/off"], expected=len(inputs), chunksize=64)
+                                "3 structures (contiguous / numbering gap / two chains) x gap detection on/off; for <= 2 entries also a chain id in two separate blocks (A, B, A)"], expected=len(inputs), chunksize=64)
         parts.append(pt)
     e1.collect(rep, parts, "harness.c06")
     rep.add(functions_encoded=["Mapping2D3D.base_pairs", "Mapping2D3D.bpseq / _generated_bpseq_data / __generate_bpseq", "Mapping2D3D.strands_sequences",
